@@ -19,6 +19,8 @@ def real_apply(ST, ST_INV, op, a, b):
         r = {"and": lambda: x & y, "or": lambda: x | y, "xor": lambda: x ^ y}[op]()
     except Exception as e:  # noqa: BLE001 - the operators are total on the four values: an exception is a (wrong) result, not a harness failure
         return f"raises {type(e).__name__}"
+    if type(r) is not type(x):      # a plain string that merely compares equal to a value's name is not one of the four values (it has no operators)
+        return f"{r!r} of type {type(r).__name__}"
     return ST_INV.get(r, repr(r))
 
 
